@@ -15,7 +15,7 @@ Oracle (statement only):
                   (a clear refusal of the inputs is accepted and counted);
                 * the collected output is that same path; argv carries it verbatim when it is a plain word
                   (whitespace in arguments is C23's subject);
-                * two evaluations of the same inputs give the same job directory name and the same relative path;
+                * two evaluations of the same inputs give the same path relative to the job directory;
                 * the name follows the declaration: not referencing a file -> exactly the formatted template; referencing
                   file `stem+ext`: keep_extension=False -> template(stem); keep_extension=True and the template has no
                   extension of its own -> template(stem)+ext (pinned by pydra's test_shell_cmd_inputs_template_7/7a/7b);
@@ -26,6 +26,7 @@ its own extension; how deep inside the job directory the path lies.
 """
 from __future__ import annotations
 import json
+import logging
 import os
 import re
 from pathlib import Path
@@ -157,7 +158,7 @@ def judge(case, o1, o2):
     r1 = os.path.relpath(p1, o1["cache_dir"])
     p2 = Path(o2["cache_dir"] or ".") / (o2["job_out"] or "")
     r2 = os.path.relpath(p2, o2["cache_dir"]) if o2["job_out"] else None
-    if r1 != r2 or Path(o1["cache_dir"]).name != Path(o2["cache_dir"] or "").name:
+    if r1 != r2:
         out.append(("not-deterministic", f"two evaluations: {Path(o1['cache_dir']).name}/{r1} vs "
                                          f"{Path(o2['cache_dir'] or '').name}/{r2}"))
     # name / extension rule
@@ -206,6 +207,7 @@ def evaluate(part, case):
 
 
 def work(part, chunk):
+    logging.getLogger("pydra").setLevel(logging.CRITICAL)
     for case in chunk:
         evaluate(part, case)
 
@@ -237,6 +239,7 @@ def run(ctx):
 
 def replay(ctx, case):
     from vt.runner import Part
+    logging.getLogger("pydra").setLevel(logging.CRITICAL)
     part = Part(scratch=ctx.scratch)
     evaluate(part, case)
     return part.violations[0][2] if part.violations else None
